@@ -233,6 +233,35 @@ def in_not_error_in_core_branch(f, idx):
     return 'any ( ERROR_IN_CORE , feature = "std" )' in outer
 
 
+def guarded_by_std_feature(f, idx):
+    """is token idx inside a block whose header is a pure `feature = "std"` condition - `if cfg!(feature = "std") {`,
+    `else if cfg!(feature = "std") {`, `if #[cfg(feature = "std")] {` (cfg_if) - i.e. code that only runs when the
+    generator itself was built with its std feature on? Negated or compound conditions do not count."""
+    toks = f.toks
+    depth = 0
+    j = idx
+    while j >= 0:
+        t = toks[j]
+        if t.kind == 'punct' and t.text in OPEN.values():
+            depth += 1
+        elif t.kind == 'punct' and t.text in OPEN:
+            if depth == 0:
+                if t.text == '{':
+                    # header: tokens back to the previous `;`, `{` or `}` (at most 24)
+                    k = j - 1
+                    head = []
+                    while k >= 0 and len(head) < 24 and toks[k].text not in (';', '{', '}'):
+                        head.append(toks[k].text)
+                        k -= 1
+                    h = ' '.join(reversed(head))
+                    if re.search(r'(^|\s)(else\s+)?if\s+(cfg\s+!\s+\(\s+feature\s+=\s+"std"\s+\)|#\s+\[\s+cfg\s+\(\s+feature\s+=\s+"std"\s+\)\s+\])\s*$', h):
+                        return True
+            else:
+                depth -= 1
+        j -= 1
+    return False
+
+
 def g_std(files):
     """every `std` path root in a quote! body; returns (instances, violations)"""
     inst = 0
@@ -251,7 +280,7 @@ def g_std(files):
                     # allowed: (1) anywhere, inside the verified cfg structure that is only emitted with the std feature on;
                     # (2) templates of the *string* generator (string newtypes are outside the no_std claim). The table above
                     # records the sites confirmed by reading; a site that moves but keeps (1) or (2) stays allowed.
-                    ok = in_not_error_in_core_branch(f, k) or f.rel.startswith('string/')
+                    ok = in_not_error_in_core_branch(f, k) or guarded_by_std_feature(f, k) or f.rel.startswith('string/')
                     if not ok:
                         viol.append({'file': f.rel, 'fn': fn, 'line': t.line,
                                      'what': f'`std::` path emitted by the template in {f.rel}::{fn}'})
